@@ -183,13 +183,48 @@ def parse_line(l):
     hp = head.split(' ')
     return idx, hp[2], ' '.join(hp[3:]), ticks
 
+_FLOAT_RE = re.compile(r'(?<![\w.+-])-?\d+\.\d+(?![\w.])')
+
+def canon_floats(text):
+    """Floats are compared by the double they denote, never by their digits: two shortest
+    round-trip spellings of one double (a tie of the digit generation) are the same value."""
+    import struct
+    def rep(m):
+        try:
+            return '#f' + struct.pack('>d', float(m.group(0))).hex()
+        except Exception:
+            return m.group(0)
+    return _FLOAT_RE.sub(rep, text)
+
+def canon_hex(h):
+    if h in ('-', '', None): return h
+    try:
+        return canon_floats(unhx(h))
+    except Exception:
+        return h
+
+def canon_ticks(t):
+    if t in ('-', '?', None): return t
+    out = []
+    for x in t.split(','):
+        if ':' in x:
+            a, b = x.split(':', 1)
+            out.append(a + ':' + canon_hex(b))
+        else: out.append(x)
+    return ','.join(out)
+
 def default_observe(kind, payload, ticks):
     """Canonical observable of one request: errors compared by class only."""
     if kind == 'E':
-        return ('E', '', ticks)
+        return ('E', '', canon_ticks(ticks))
     if kind == 'P':
-        return ('P', '', ticks)
-    return (kind, payload, ticks)
+        return ('P', '', canon_ticks(ticks))
+    if kind == 'V':
+        return ('V', canon_hex(payload), canon_ticks(ticks))
+    if kind == 'VARS':
+        return ('VARS', ';'.join(a.split(':')[0] + ':' + ','.join(canon_hex(v) for v in a.split(':', 1)[1].split(',')) if ':' in a else a
+                                 for a in payload.split(';')), None)
+    return (kind, payload, canon_ticks(ticks))
 
 def compare(cases, impl, model, observe=default_observe, skip_kinds=('F',)):
     """Returns (n_requests_compared, n_skipped, disagreements)."""
